@@ -26,9 +26,10 @@ ASSUMPTIONS = ["quantifier of the property: configurations whose out-state compu
                "activator protocol (JF.MP.Protocol / hypotheses of JF.C20.stage_inv): created handlers are distinct and not running, the "
                "scheduler returns a running handler, the committed handler is in its own trash list, trashed handlers stop running — "
                "evaluated on every recorded leg by the trace validation (reply field proto=111)",
-               "JF.MP.Protocol.choose_perm: the scheduler's answer does not depend on the order in which the candidate times of one leg are "
-               "pushed, i.e. no two of them tie; the real schedulers break ties by push order, which is the known finding "
-               "C20:tie-of-candidate-times-pushed-in-one-leg (JF.C20.tie_breaks_refinement is the counterexample on the model)"]
+               "nothing is assumed about ties between candidate times: the (repaired) multi-process mediator pushes after the receive "
+               "loop in the order of the activator's dictionary, the push sequence of the single-process mediator (JF.C20.stage_inv); "
+               "the former finding C20:tie-of-candidate-times-pushed-in-one-leg (known_findings/C20.json, fixed) stays in the corpus of "
+               "every run as a regression input"]
 TRUSTED = ["harness/runtrace.py: per-handler RNG wrappers (class level, signature preserving), ScheduleShim replacing multiprocessing.connection"]
 
 CFG = runs.CFG
@@ -102,9 +103,10 @@ def run(ctx):
     if not ctx.quick:
         bases.append({"ini": "config_files/hard_disk_dipoles/hard_disk_dipoles_cells.ini",
                       "overrides": {"FinalTimeEndOfRunEventHandler": {"end_of_run_time": 3}}})
-    # corpus (every run, fixed seeds): sampling interval == end-of-run time, i.e. two candidate event times pushed in the same leg are
-    # equal; which of the two handlers the scheduler returns then depends on the order of the push_event calls = arrival order
-    # (known finding C20:tie-of-candidate-times-pushed-in-one-leg)
+    # regression corpus (every run, fixed seeds): sampling interval == end-of-run time, i.e. two candidate event times pushed in the
+    # same leg are equal; which of the two handlers the scheduler returns depends on the order of the push_event calls. Before the
+    # repair (known_findings/C20.json, status fixed) the multi-process mediator pushed in arrival order and these schedules diverged
+    # (signature C20:tie-of-candidate-times-pushed-in-one-leg:…); a divergence here is a plain failure now.
     TIE = {"heap_scheduler": [0, 3, 4], "list_scheduler": [0, 1, 3]}
     n_regular = len(bases)
     for sched in TIE:
@@ -124,6 +126,12 @@ def run(ctx):
         for cores in ([2, 3, 5] if ctx.quick else [2, 3, 4, 8]):
             for s in range(ctx.n(3, 6)):
                 jobs.append({**common, "base": bi, "mp": {"cores": cores, "schedule_seed": ctx.seed * 1000 + 17 * s + cores}})
+        if bi < 2:
+            # preemption schedules: the workers' or-event clears itself only after a short sleep, which widens the window between a
+            # worker reading its start/continue events and clearing the or-event (a lost wake-up there is a deadlock: time-out)
+            for cores in (2, 4):
+                jobs.append({**common, "base": bi, "max_legs": ctx.n(120, 400), "timeout": 120,
+                             "mp": {"cores": cores, "schedule_seed": ctx.seed * 1000 + 900 + cores, "or_clear_delay": 0.002}})
     trs = runs.run_jobs(ctx.root, jobs, workers=6)
     for tr in trs:
         job = tr["job"]
@@ -177,10 +185,10 @@ def run(ctx):
                     break
             if bad is None:
                 ctx.count("runs-equal-up-to-which-pool-instance-of-a-tagger-got-which-in-state")
-        if bad is None and (len(ref["legs"]) != len(tr["legs"]) or ref["end"] != tr["end"]):
+        if bad is None and tr["end"] != "cap" and (len(ref["legs"]) != len(tr["legs"]) or ref["end"] != tr["end"]):
             bad = (n, "length/end")
         if bad is None:
-            wa = [(w["leg"], w["handler"], w.get("state")) for w in ref["writes"]]
+            wa = [(w["leg"], w["handler"], w.get("state")) for w in ref["writes"] if tr["end"] != "cap" or w["leg"] < len(tr["legs"])]
             wb = [(w["leg"], w["handler"], w.get("state")) for w in tr["writes"]]
             if wa != wb:
                 bad = (None, "samples")
